@@ -3,11 +3,15 @@
    ModeWrapper.get_item/set_item plumbing it uses.  No proofs in this file.
 
    Samples are represented by their position in the batch (0..B-1).  The model follows the
-   code statement by statement: same order of draws, same index used for every lookup.
+   code statement by statement: same order of draws, same index used for every lookup, same
+   order of the places where the code raises.  Inputs the code rejects are error VALUES
+   (type [err]): the flip assertion on odd batches, the label format assertion, the
+   `h, w = x.shape[2:]` unpacking of images that are not (C, H, W), the in-place mixing of
+   non-float images, lamb[i].view() on 0-d samples, a batch without an image item.
    What is NOT modelled: pixel / label float arithmetic (the model emits *descriptors* that
    say which partner and which weight / box the arithmetic is applied with), the float
-   expression  floor(0.5*sqrt(1-lambda)*h)  for the half box sizes (shipped by the harness
-   as the argument [halves], obtained from the implementation's own get_random_bbox), and
+   evaluation of  floor(0.5*sqrt(1-lambda)*h)  for the half box sizes (shipped by the harness
+   as the argument [halves]; Spec.half_spec states the exact value and Check compares), and
    the float32 rounding of lambda.  Probabilities / lambdas are rationals (exact values of
    the binary64 draws). *)
 From Coq Require Import ZArith QArith List Bool.
@@ -21,12 +25,15 @@ Inductive token := TIndex | TX | TClass | TOther (k : nat).
 
 Record cfg := {
   bsz : nat;                 (* batch_size = len(x) *)
-  img_h : Z; img_w : Z;      (* h, w = x.shape[2:] *)
+  img_h : Z; img_w : Z;      (* h, w = x.shape[2:]  (meaningful when x_rank = 3) *)
   mixup_p : Q; cutmix_p : Q;
   total_p : Q;               (* the float sum mixup_p + cutmix_p; the ctor raises unless it is 1.0 *)
   mixup_alpha : option Q; cutmix_alpha : option Q;
   apply_mode : ab_mode; lamb_mode : ab_mode; shuf : shuffle_mode;
-  tokens : list token        (* dataset_mode.split(" ") *)
+  tokens : list token;       (* dataset_mode.split(" ") *)
+  x_rank : nat;              (* x.ndim - 1: number of dimensions of one sample (3 for C x H x W images) *)
+  x_float : bool;            (* x has a floating point dtype *)
+  lab_ndim : nat             (* y.ndim of the collated "class" item (2: rows, 1: binary scalars) *)
 }.
 
 (* ---------- draws ---------- *)
@@ -39,11 +46,25 @@ Inductive draw :=
 | DPerm (p : list nat).              (* rng.permutation(n) *)
 Definition trace := list draw.
 
-Definition M (A : Type) := trace -> option (A * trace).
-Definition ret {A} (a : A) : M A := fun tr => Some (a, tr).
-Definition fail {A} : M A := fun _ => None.
+(* ---------- what the code raises ---------- *)
+Inductive err :=
+| EDraw            (* the recorded draws do not fit the code path: model / implementation mismatch *)
+| EAssertFlip      (* shuffle: assert len(item) % 2 == 0 *)
+| EAssertLabel     (* "KDMixCollator expects classes to be in one-hot format" *)
+| EUnpack          (* h, w = x.shape[2:]  with x.ndim != 4: ValueError *)
+| ECast            (* x.mul_(lamb) on an integer image: RuntimeError (result type Float can't be cast) *)
+| EView            (* lamb[i].view() without arguments on 0-d samples: TypeError *)
+| ENoX             (* len(None): the mode has no "x" item: TypeError *)
+| EItem.           (* get_item / set_item on a batch that does not fit the mode (not reachable from a ModeWrapper) *)
+Inductive res (A : Type) := Ok (a : A) | Err (e : err).
+Arguments Ok {A} a.
+Arguments Err {A} e.
+
+Definition M (A : Type) := trace -> res (A * trace).
+Definition ret {A} (a : A) : M A := fun tr => Ok (a, tr).
+Definition fail {A} (e : err) : M A := fun _ => Err e.
 Definition bind {A B} (m : M A) (f : A -> M B) : M B :=
-  fun tr => match m tr with Some (a, tr') => f a tr' | None => None end.
+  fun tr => match m tr with Ok (a, tr') => f a tr' | Err e => Err e end.
 Notation "x <- m ;; k" := (bind m (fun x => k)) (at level 61, m at next level, right associativity).
 Notation "' p <- m ;; k" := (bind m (fun p => k)) (at level 61, p pattern, m at next level, right associativity).
 
@@ -51,18 +72,18 @@ Definition Qeqb (a b : Q) : bool := Qeq_bool a b.
 Definition Qltb (a b : Q) : bool := negb (Qle_bool b a).
 
 Definition next_unit : M Q := fun tr =>
-  match tr with DUnit u :: tr' => Some (u, tr') | _ => None end.
+  match tr with DUnit u :: tr' => Ok (u, tr') | _ => Err EDraw end.
 Definition next_units (n : nat) : M (list Q) := fun tr =>
-  match tr with DUnits us :: tr' => if Nat.eqb (length us) n then Some (us, tr') else None | _ => None end.
+  match tr with DUnits us :: tr' => if Nat.eqb (length us) n then Ok (us, tr') else Err EDraw | _ => Err EDraw end.
 Definition next_beta (a : Q) : M Q := fun tr =>
-  match tr with DBeta a' x :: tr' => if Qeqb a a' then Some (x, tr') else None | _ => None end.
+  match tr with DBeta a' x :: tr' => if Qeqb a a' then Ok (x, tr') else Err EDraw | _ => Err EDraw end.
 Definition next_betas (a : Q) (n : nat) : M (list Q) := fun tr =>
-  match tr with DBetas a' xs :: tr' => if Qeqb a a' && Nat.eqb (length xs) n then Some (xs, tr') else None | _ => None end.
+  match tr with DBetas a' xs :: tr' => if Qeqb a a' && Nat.eqb (length xs) n then Ok (xs, tr') else Err EDraw | _ => Err EDraw end.
 Definition next_ints (hi : Z) (n : nat) : M (list Z) := fun tr =>
-  match tr with DInts hi' xs :: tr' => if (hi =? hi') && Nat.eqb (length xs) n then Some (xs, tr') else None | _ => None end.
+  match tr with DInts hi' xs :: tr' => if (hi =? hi') && Nat.eqb (length xs) n then Ok (xs, tr') else Err EDraw | _ => Err EDraw end.
 Definition next_perm (n : nat) : M (list nat) := fun tr =>
-  match tr with DPerm p :: tr' => if Nat.eqb (length p) n then Some (p, tr') else None | _ => None end.
-Definition lift {A} (o : option A) : M A := match o with Some a => ret a | None => fail end.
+  match tr with DPerm p :: tr' => if Nat.eqb (length p) n then Ok (p, tr') else Err EDraw | _ => Err EDraw end.
+Definition lift {A} (e : err) (o : option A) : M A := match o with Some a => ret a | None => fail e end.
 
 (* ---------- descriptors ---------- *)
 Definition box := (Z * Z * Z * Z)%type.          (* top, left, bot, right *)
@@ -84,7 +105,7 @@ Definition shuffle (m : shuffle_mode) (item : list nat) (permutation : option (l
   if Nat.eqb (length item) 1 then ret (item, None) else
   match m with
   | Roll => ret (roll1 item, None)
-  | Flip => if Nat.even (length item) then ret (rev item, None) else fail   (* assert len(item) % 2 == 0 *)
+  | Flip => if Nat.even (length item) then ret (rev item, None) else fail EAssertFlip   (* assert len(item) % 2 == 0 *)
   | Random =>
       match permutation with
       | Some p => ret (index_by item p, Some p)
@@ -108,10 +129,12 @@ Fixpoint zip3 (a b : list Z) (c : list (Z * Z)) : list (Z * Z * (Z * Z)) :=
   | _, _, _ => []
   end.
 
+(* halves: (bbox_h_half, bbox_w_half) per box = (floor(0.5*sqrt(1-lamb)*h), floor(0.5*sqrt(1-lamb)*w)) as the
+   float code evaluated it *)
 Definition get_random_bbox (h w : Z) (n : nat) (halves : list (Z * Z)) : M (list box * list Q) :=
   chs <- next_ints h n ;;
   cws <- next_ints w n ;;
-  if negb (Nat.eqb (length halves) n) then fail else
+  if negb (Nat.eqb (length halves) n) then fail EDraw else
   let boxes := map (fun '(ch, cw, hf) => clamp_box h w ch cw hf) (zip3 chs cws halves) in
   ret (boxes, map (lamb_adjusted h w) boxes).
 
@@ -152,7 +175,8 @@ Record result := {
   labs : option (list lab_desc);        (* what happened to y, per sample (None: no "class" item) *)
   ctx_apply : list bool;
   ctx_cutmix : list bool;               (* a single flag in lamb_mode batch *)
-  ctx_lambda : list Q                   (* one element in lamb_mode batch *)
+  ctx_lambda : list Q;                  (* one element in lamb_mode batch *)
+  bbox_lams : list Q                    (* the lambdas get_random_bbox was called with ([] = not called) *)
 }.
 
 Definition qnth (i : nat) (l : list Q) : Q := nth i l 0%Q.
@@ -169,10 +193,15 @@ Fixpoint sequence {A} (l : list (option A)) : option (list A) :=
   | None :: _ => None
   end.
 
+(* h, w = x.shape[2:] *)
+Definition unpack_hw (c : cfg) : M unit := if Nat.eqb (x_rank c) 3 then ret tt else fail EUnpack.
+(* x.mul_(x_lamb) / x[i].mul_(x_lamb): in place, so the image dtype has to hold a float result *)
+Definition mul_inplace (c : cfg) : M unit := if x_float c then ret tt else fail ECast.
+
 Definition collate (c : cfg) (halves : list (Z * Z)) : M result :=
   let n := bsz c in
   let h := img_h c in let w := img_w c in
-  if negb (has_item (tokens c) TX) then fail else          (* len(None) *)
+  if negb (has_item (tokens c) TX) then fail ENoX else      (* batch_size = len(x) with x = None *)
   let has_y := has_item (tokens c) TClass in
   (* sample apply *)
   apply <- (match apply_mode c with
@@ -183,37 +212,46 @@ Definition collate (c : cfg) (halves : list (Z * Z)) : M result :=
   | PerBatch =>
       u <- next_unit ;;
       let use_cutmix := Qltb (u * total_p c) (cutmix_p c) in
-      alpha <- lift (if use_cutmix then cutmix_alpha c else mixup_alpha c) ;;
+      alpha <- lift EDraw (if use_cutmix then cutmix_alpha c else mixup_alpha c) ;;
       lamb <- next_beta alpha ;;
       (* apply x *)
       '(x2, permutation) <- shuffle (shuf c) (seq 0 n) None ;;
-      '(xs, lamb) <- (if use_cutmix then
+      '(xs, lamb, bl) <- (if use_cutmix then
+                        _ <- unpack_hw c ;;
                         '(bbox, lamb') <- get_random_bbox h w 1 halves ;;
                         match bbox, lamb' with
-                        | b0 :: _, l0 :: _ => ret (map (fun j => Cut j b0) x2, l0)
-                        | _, _ => fail
+                        | b0 :: _, l0 :: _ => ret (map (fun j => Cut j b0) x2, l0, [lamb])
+                        | _, _ => fail EDraw
                         end
-                      else ret (map (fun j => Mix j lamb) x2, lamb)) ;;
+                      else
+                        _ <- mul_inplace c ;;
+                        ret (map (fun j => Mix j lamb) x2, lamb, [])) ;;
       (* apply y *)
       ys <- (if has_y then
                '(y2, _) <- shuffle (shuf c) (seq 0 n) permutation ;;
                ret (Some (map (fun j => (j, lamb)) y2))
              else ret None) ;;
-      ret {| imgs := xs; labs := ys; ctx_apply := apply; ctx_cutmix := [use_cutmix]; ctx_lambda := [lamb] |}
+      ret {| imgs := xs; labs := ys; ctx_apply := apply; ctx_cutmix := [use_cutmix]; ctx_lambda := [lamb];
+             bbox_lams := bl |}
   | PerSample =>
       us <- next_units n ;;
       let use_cutmix := map (fun u => Qltb (u * total_p c) (cutmix_p c)) us in
       mixup_lamb <- (if Qltb 0 (mixup_p c) then
-                       a <- lift (mixup_alpha c) ;; l <- next_betas a n ;; ret (map Some l)
+                       a <- lift EDraw (mixup_alpha c) ;; l <- next_betas a n ;; ret (map Some l)
                      else ret (repeat None n)) ;;
-      '(bbox, cutmix_lamb) <- (if Qltb 0 (cutmix_p c) then
-                       a <- lift (cutmix_alpha c) ;; _ <- next_betas a n ;;
+      '(bbox, cutmix_lamb, bl) <- (if Qltb 0 (cutmix_p c) then
+                       a <- lift EDraw (cutmix_alpha c) ;; ls <- next_betas a n ;;
+                       _ <- unpack_hw c ;;
                        '(bb, l) <- get_random_bbox h w n halves ;;
-                       ret (bb, map Some l)
-                     else ret ([], repeat None n)) ;;
-      lamb <- lift (sequence (where3 use_cutmix cutmix_lamb mixup_lamb)) ;;
+                       ret (bb, map Some l, ls)
+                     else ret ([], repeat None n, [])) ;;
+      lamb <- lift EDraw (sequence (where3 use_cutmix cutmix_lamb mixup_lamb)) ;;
       (* apply x *)
       '(x2_indices, permutation) <- shuffle (shuf c) (seq 0 n) None ;;
+      (* for i in range(batch_size): ... else: x_lamb = lamb[i].view(1, ..., 1) with x.ndim - 1 ones; x[i].mul_(x_lamb)...
+         every mixup sample raises the same way, so the loop raises iff some sample is not a cutmix sample *)
+      _ <- (if forallb (fun b => b) use_cutmix then ret tt
+            else if Nat.eqb (x_rank c) 0 then fail EView else mul_inplace c) ;;
       let xs := map (fun i =>
                        let j := nth i x2_indices 0%nat in
                        if nth i use_cutmix false
@@ -223,21 +261,60 @@ Definition collate (c : cfg) (halves : list (Z * Z)) : M result :=
                '(y2, _) <- shuffle (shuf c) (seq 0 n) permutation ;;
                ret (Some (map (fun i => (nth i y2 0%nat, qnth i lamb)) (seq 0 n)))
              else ret None) ;;
-      ret {| imgs := xs; labs := ys; ctx_apply := apply; ctx_cutmix := use_cutmix; ctx_lambda := lamb |}
+      ret {| imgs := xs; labs := ys; ctx_apply := apply; ctx_cutmix := use_cutmix; ctx_lambda := lamb;
+             bbox_lams := bl |}
   end.
 
-(* ---------- the batch tuple ---------- *)
+(* ---------- the batch tuple and the context ---------- *)
 Inductive item :=
 | IX (l : list img_desc)
-| IY (l : list lab_desc)
+| IY (l : list lab_desc) (ndim : nat)    (* ndim: y.squeeze(1) is applied again for binary labels *)
 | IOther (v : list Z).
 
-(* idx/x/y are read with get_item, then written back with set_item in the order index, x, class *)
-Definition collate_batch (c : cfg) (halves : list (Z * Z)) (batch : list item) : M (list item * result) :=
+(* y.ndim != 2: assert y.ndim == 1 and 0. <= y.min() and y.max() <= 1.  (Y: the collated label values, row-wise) *)
+Definition in_unit (q : Q) : bool := Qle_bool 0 q && Qle_bool q 1.
+Definition labels_accepted (ndim : nat) (Y : list (list Q)) : bool :=
+  match ndim with
+  | 2%nat => true
+  | 1%nat => forallb (fun row => forallb in_unit row) Y
+  | _ => false
+  end.
+
+(* the context dictionary handed to collate: entries recorded per sample by the dataset and collated before
+   this collator (user keys, distinct from the collator's own three keys) -- collate only ADDS
+   ctx["apply"], ctx["use_cutmix"], ctx["lambda"] *)
+Inductive ckey := KApply | KCutmix | KLambda | KUser (k : nat).
+Inductive cval := VBools (l : list bool) | VLams (l : list Q) | VRaw (v : list Z).
+Definition ctx_t := list (ckey * cval).
+Definition ckey_eqb (a b : ckey) : bool :=
+  match a, b with
+  | KApply, KApply | KCutmix, KCutmix | KLambda, KLambda => true
+  | KUser i, KUser j => Nat.eqb i j
+  | _, _ => false
+  end.
+(* ctx[k] = v *)
+Fixpoint ctx_set (k : ckey) (v : cval) (ctx : ctx_t) : ctx_t :=
+  match ctx with
+  | [] => [(k, v)]
+  | (k', v') :: r => if ckey_eqb k k' then (k, v) :: r else (k', v') :: ctx_set k v r
+  end.
+Fixpoint ctx_get (k : ckey) (ctx : ctx_t) : option cval :=
+  match ctx with
+  | [] => None
+  | (k', v') :: r => if ckey_eqb k k' then Some v' else ctx_get k r
+  end.
+
+(* idx/x/y are read with get_item, the label format is asserted, then the draws; the book keeping writes the three
+   context entries; idx/x/y are written back with set_item in the order index, x, class *)
+Definition collate_batch (c : cfg) (halves : list (Z * Z)) (Y : list (list Q)) (batch : list item) (ctx : ctx_t)
+  : M (list item * ctx_t * result) :=
   let mode := tokens c in
-  idx <- lift (if has_item mode TIndex then option_map Some (get_item mode TIndex batch) else Some None) ;;
+  idx <- lift EItem (if has_item mode TIndex then option_map Some (get_item mode TIndex batch) else Some None) ;;
+  _ <- (if has_item mode TClass && negb (labels_accepted (lab_ndim c) Y) then fail EAssertLabel else ret tt) ;;
   r <- collate c halves ;;
-  b1 <- lift (match idx with Some v => set_item mode TIndex batch v | None => Some batch end) ;;
-  b2 <- lift (set_item mode TX b1 (IX (imgs r))) ;;
-  b3 <- lift (match labs r with Some l => set_item mode TClass b2 (IY l) | None => Some b2 end) ;;
-  ret (b3, r).
+  let ctx' := ctx_set KLambda (VLams (ctx_lambda r))
+                (ctx_set KCutmix (VBools (ctx_cutmix r)) (ctx_set KApply (VBools (ctx_apply r)) ctx)) in
+  b1 <- lift EItem (match idx with Some v => set_item mode TIndex batch v | None => Some batch end) ;;
+  b2 <- lift EItem (set_item mode TX b1 (IX (imgs r))) ;;
+  b3 <- lift EItem (match labs r with Some l => set_item mode TClass b2 (IY l (lab_ndim c)) | None => Some b2 end) ;;
+  ret (b3, ctx', r).
